@@ -386,8 +386,12 @@ func (w *World) CheckAddresses(inst *Instance, ws *WalletState, l *Ledger, class
 				}
 			}
 			w.Node.mu.Unlock()
-			w.Violate(class+".address-not-listed", "wallet %s: issued address %s (index %d, staking=%v) is not listed; paid-in-a-rolled-back-block=%v paid-on-best-chain=%v",
-				ws.ID, ia.Addr, ia.Index, ia.Staking, rolled, paidStd[h] || paidStk[h])
+			sameClass := paidStd[h]
+			if ia.Staking {
+				sameClass = paidStk[h]
+			}
+			w.Violate(class+".address-not-listed", "wallet %s: issued address %s (index %d, staking=%v) is not listed; paid-in-a-rolled-back-block=%v paid-on-best-chain-in-its-class=%v",
+				ws.ID, ia.Addr, ia.Index, ia.Staking, rolled, sameClass)
 			return
 		}
 		sameClassPaid := paidStd[h]
@@ -541,9 +545,18 @@ func (w *World) CheckPendingGlobal(inst *Instance, pend map[wire.Hash]*wire.MsgT
 			if _, isPend := pend[ph]; isPend {
 				continue
 			}
-			if w.Node.LookupTx(ph) != nil && ownedParentOutput(w, own, in.PreviousOutPoint) {
-				w.Violate(class+".orphan-pending", "pending transaction %s spends output %v of a transaction that is neither confirmed nor pending", h, in.PreviousOutPoint)
-				return
+			// the statement covers descendants of a transaction that lost
+			// against a confirmed conflict (on a wallet coin); a parent that
+			// merely disappeared with its block is outside it
+			parent := w.Node.LookupTx(ph)
+			if parent == nil || !ownedParentOutput(w, own, in.PreviousOutPoint) {
+				continue
+			}
+			for _, pin := range parent.TxIn {
+				if by, ok := spentOnChain[pin.PreviousOutPoint]; ok && by != ph && ownedInput(pin.PreviousOutPoint) {
+					w.Violate(class+".orphan-pending", "pending transaction %s spends output %v of transaction %s, which lost against the confirmed conflicting transaction %s and is gone", h, in.PreviousOutPoint, ph, by)
+					return
+				}
 			}
 		}
 	}
@@ -820,11 +833,40 @@ func checkRestore(w *World, src *Instance, t *Tape, class string) {
 			have[h] = true
 		}
 	}
-	// every issued address that has a payment on the best chain must be found
+	// Every issued address that has a payment on the best chain must be
+	// found. When forks removed payments during the run, the premise of the
+	// guarantee (the address that justified an issue still has history) may no
+	// longer hold on the best chain; then only the addresses the documented
+	// scan (continue until gap-limit consecutive unused addresses past the
+	// last used one or the hint) reaches are demanded.
+	usedAt := func(i uint32) bool {
+		a := ws.HD.Addr(i)
+		u, _ := w.Node.CheckScriptHashUsed(a.ScriptHash)
+		return u
+	}
+	gap := b.Cfg.Wallet.Settings.AddressGapLimit
+	reach := uint32(0)
+	{
+		next := uint32(0)
+		h0 := hint
+		if h0 == 0 {
+			h0 = 1
+		}
+		for i := uint32(0); i < next+gap || i < h0+gap; i++ {
+			if usedAt(i) {
+				next = i + 1
+			}
+			reach = i + 1
+		}
+	}
+	strict := w.Stats["op.fork"] == 0
 	for _, ia := range ws.Issued {
 		var h [32]byte
 		copy(h[:], ws.HD.Addr(ia.Index).ScriptHash)
 		used, _ := w.Node.CheckScriptHashUsed(h[:])
+		if !strict && ia.Index >= reach {
+			continue
+		}
 		if used && !have[h] {
 			w.Violate(class+".restore-missed-address", "restore with hint %d did not find address index %d (%s) which has chain history; gap limit %d, issued %d",
 				hint, ia.Index, ia.Addr, b.Cfg.Wallet.Settings.AddressGapLimit, len(ws.Issued))
